@@ -164,6 +164,7 @@ func main() {
 			an.closedStateCallers(id)
 			an.closedGates(id)
 			an.closedEraseSites(id)
+			an.closedConstArgs(id)
 			r.Extra["configurations"] = appendStr(r.Extra["configurations"], cfgName)
 			r.Extra["functions_analysed"] = len(c.FuncSeq)
 			r.Extra["callgraph_nodes"] = len(c.CG.Nodes)
